@@ -303,6 +303,7 @@ func (in *Interp) store(p Ptr, v Value) {
 		panic(&specAbort{"store to an older object in arm"})
 	}
 	in.nstores++
+	in.watchNote(p.obj)
 	if in.storeLog != nil {
 		in.storeLog(p, v)
 	}
